@@ -352,6 +352,28 @@ theorem same_folder_exit (fwA : Framework) (wA cA dA lA : Bool) (fwB : Framework
   · exact same_folder_exit_nf wA dA lA fwB wB cB dB lB
   · exact same_folder_exit_nt wA dA lA fwB wB cB dB lB
 
+/-! ## Key as a parameter -/
+
+theorem shape_of_blank {e : Event} (h : e.blank = true) : e.shape = e := by
+  cases e with
+  | write p c =>
+    cases c with
+    | config w b r => simp only [Event.blank, Content.keyBlank] at h; subst h; rfl
+    | data => rfl
+  | delete p => rfl
+  | raise => rfl
+
+theorem map_shape_of_all_blank : ∀ (l : List Event), (∀ e ∈ l, e.blank = true) → l.map Event.shape = l
+  | [], _ => rfl
+  | e :: l, h => by
+    rw [List.map_cons, shape_of_blank (h e (List.mem_cons_self ..)),
+      map_shape_of_all_blank l (fun e' he' => h e' (List.mem_cons_of_mem _ he'))]
+
+theorem withKey_present (l : List Event) : l.map (Event.withKey .present) = l := by
+  induction l with
+  | nil => rfl
+  | cons e l ih => simp [Event.withKey, ih]
+
 /-! ## Low-memory fallback -/
 
 theorem forall_mem_traceLM {P : Event → Prop} (v : Version) (f : Flags) (rounds : List Bool)
